@@ -367,6 +367,15 @@ def judge_block(case, hb, db, ci_names, stats):
         stats["frames"].append(T)
         stats["states"].append(len(hS))
         stats["words"].append(len(hW))
+    # ---- the word scores account for the whole path: their sum is the out-score of the alignment search
+    fin = next((l.split() for l in hb if l.startswith("FINAL ")), None)
+    if fin and hW and a.startswith("A ok") and not case.get("tmatskip"):
+        tot = sum(int(w[6]) for w in hW)
+        if tot != int(fin[2]):
+            probs.append({"what": "the word scores omit part of the path score: their sum differs from the out-score of the "
+                                  "alignment search (a word score that omits a state)",
+                          "detail": {"sum_of_word_scores": tot, "out_score": int(fin[2]), "tag": tag,
+                                     "first_state": hS[0] if hS else None}, "impl": True, "key": None, "tie": False})
     # ---- populate branches exercised
     for w in hW:
         d = dic.get(int(w[2]))
@@ -685,6 +694,18 @@ def check(c):
              "WFTokens and NoSkip hold on the dumped data; the step model reproduces the token stack from the dumped senone scores",
              allok)
     s = summarise(stats)
+    c.cov["explanation"] = (
+        "Theorems (all inputs, any number of words/phones/frames): populate_structure, backtrace_partition, "
+        "children_are_blocks, boundaries_preserved, scores_add_up over the model of alignment_populate / "
+        "state_align_search_finish / alignment_propagate / the child iterators, under the executable hypothesis wfTokens; "
+        "alignOKB = AlignOK; alignStep_tokens_local_partial (every token of the constrained Viterbi is local when the "
+        "matrices have no skips).  Tie: every alignment the real decoder returned in this run was (1) judged by alignOKB "
+        "on the iterator-API output, (2) recomputed by the model from the dumped first-pass segmentation, dict2pid tables "
+        "and token stack and compared entry by entry, (3) its token stack checked against wfTokens/NoSkip, and for a third "
+        "of the requests (4) recomputed frame by frame by the step model from the senone scores a hand-stepped second pass "
+        "saw.  Generated token stacks exercise the failing and skipping branches of the backtrace.  The relation to the "
+        "first-pass scores is evaluated on the implementation only: exact under compallsen=yes (equality for every word "
+        "whose cross-word triphones agree in both passes), recorded as known findings otherwise.")
     c.cov.update({"evaluations": stats["requests"], "distinct_nontrivial": stats["alignments"],
                   "rule": "alignment requests (final and partial) on generated (grammar, clip, mode, chunking, configuration) "
                           "cases; non-trivial = decoder_alignment returned an alignment (>= 1 word) whose token stack was dumped, "
